@@ -227,6 +227,10 @@ func (x *Xlat) execRange(st *State, fr *Frame, s *ast.RangeStmt, label string) *
 			kind = "int"
 			rng = x.ctx.Define("rngn", x.eval(st, fr, out, s.X))
 		}
+	case *types.Array:
+		kind = "array"
+		elemT = t.Elem()
+		rng = x.ctx.Define("rnga", x.eval(st, fr, out, s.X))
 	case *types.Map:
 		kind = "map"
 		keyT, elemT = t.Key(), t.Elem()
@@ -282,6 +286,8 @@ func (x *Xlat) execRange(st *State, fr *Frame, s *ast.RangeStmt, label string) *
 	var n *Term
 	if kind == "int" {
 		n = rng
+	} else if kind == "array" {
+		n = IntLit(types.Unalias(info.TypeOf(s.X)).Underlying().(*types.Array).Len())
 	} else {
 		n = SLen(rng)
 		if f := x.typeFacts(rng, types.NewSlice(elemT)); !f.IsTrue() {
@@ -323,6 +329,11 @@ func (x *Xlat) execRange(st *State, fr *Frame, s *ast.RangeStmt, label string) *
 	switch kind {
 	case "int":
 		bind(s.Key, pos, types.Typ[types.Int])
+	case "array":
+		bind(s.Key, pos, types.Typ[types.Int])
+		if s.Value != nil {
+			bind(s.Value, x.arrIndex(rng, info.TypeOf(s.X), pos), elemT)
+		}
 	case "slicevalues":
 		bind(s.Key, x.load(st, PElem{rng, pos, elemT}), elemT)
 	default:
